@@ -23,6 +23,8 @@ SimStep ==
   \/ \E k \in Inc : RSetRest(k) /\ Cmd("RSetRest", k)
   \/ \E k \in Inc : RExit(k) /\ Cmd("RExit", k)
   \/ \E k \in Inc : RCleanup(k) /\ Cmd("RCleanup", k)
+  \/ \E k \in Inc : RBatch(k) /\ Cmd(IF CanDeliver THEN "RBatch" ELSE "RBatchRetry", k)
+  \/ \E k \in Inc : RRetry(k) /\ Cmd("RRetry", k)
   \/ (NLookup /\ Cmd("NLookup", 0))
   \/ (NSend /\ Cmd("NSend", 0))
   \/ (DLookup /\ Cmd("DLookup", 0))
